@@ -610,6 +610,8 @@ def tasks(tier):
         ts.append(Task(f'{nm}.unbounded', t_price_transform(nm), extra=dict(spec_mod=SPEC), overrides=dict(ov), prove_timeout_ms=60000))
     for nm in ('mom',):
         ts.append(Task(f'{nm}.unbounded', t_window_unbounded(nm), extra=dict(spec_mod=SPEC), overrides=dict(ov), prove_timeout_ms=60000))
+    from props import common as _common
+    ts.append(Task('frame', _common.frame_task(['jesse.helpers.get_candle_source', 'jesse.helpers.slice_candles', 'jesse.helpers.same_length', 'jesse.helpers.np_shift', 'jesse.indicators.ma.ma'])))
     ts.append(Task('native.definitions', t_native_definitions, extra=dict(spec_mod=SPEC, bounded='native: ADX (ties), stoch (mixed matypes), stddev (price level 1e9), random / spiky series')))
     for n in ('obv', 'typprice', 'medprice'):
         ts.append(Task(f'candle.{n}', t_candle_based(n, 0), extra=dict(bx), overrides=dict(ov)))
